@@ -44,3 +44,14 @@ func VerifTrimOnce(w Wal) error {
 	}
 	return t.doTrim()
 }
+
+// VerifFlushHook, when set, is called after every msync of a read-write segment with the path of
+// the segment file. The verification harness uses it to know which bytes of which file were made
+// durable, so that it can build honest power-loss images.
+var VerifFlushHook func(txnPath string)
+
+func verifOnFlush(txnPath string) {
+	if h := VerifFlushHook; h != nil {
+		h(txnPath)
+	}
+}
